@@ -1148,6 +1148,13 @@ class EffDomain(Domain):
             for l in kwargs['out'].locs:
                 eng.write(l, eng.where(self.frame, e) + f' ({dotted} out=)')
             return Val(kwargs['out'].locs)
+        # scipy's overwrite_a / overwrite_b / overwrite_x: permission to destroy the argument (a view included)
+        ow = [(k, v) for k, v in kwargs.items() if k.startswith('overwrite_') and v.const is not False]
+        for k, _ in ow:
+            pos = {'overwrite_a': 0, 'overwrite_x': 0, 'overwrite_b': 1}.get(k)
+            if pos is not None and pos < len(args):
+                for l in args[pos].locs:
+                    eng.write(l, eng.where(self.frame, e) + f' ({dotted} {k}=True)')
         if dotted.startswith('np.random') or '.random.' in dotted:
             return self.fresh(e, RNG if name == 'default_rng' else ARR)
         if dotted.startswith('np.linalg.') or dotted.startswith('scipy.linalg.') or dotted.startswith('scipy.sparse.linalg'):
